@@ -60,6 +60,47 @@ def oracle_e2e(case, impl):
     return None
 
 
+def oracle_cache_faithful(case, impl):
+    """C01 on the cache-hit leg (area cache: the real DOH.resolve / DNS53.resolve on a harness-owned Cacher): a reply served
+    from the cache carries the asking query's ID and is the answer that was fetched for THIS question - never the answer to
+    another question (the harness tracks, beside the cache and not by its key, on whose behalf every entry was stored)."""
+    import re
+    from props.c06 import fields
+    f = case.split(" ")
+    if impl in ("bad-op", "bad-query", "UNSTABLE-CLOCK", "-") or "PANIC" in impl:
+        return None
+    ops, outs = f[5:], impl.split(" ")
+    if len(outs) != len(ops):
+        return None
+    for i, (op, out) in enumerate(zip(ops, outs)):
+        g = op.split(",")
+        members = []
+        if g[0] == "D":
+            members = [(g[3], out)]
+        elif g[0] == "N":
+            members = [(g[1], out)]
+        elif g[0] == "C":
+            m = re.match(r"c\d+,(.*)$", out)
+            members = [(g[3], t) for t in (out[6:].split("+") if out.startswith("cdiff,") else ([m.group(1)] if m else []))]
+        elif g[0] == "CC" and out.startswith("cc,") and out.count("+") == 1:
+            ta, tb = out[3:].split("+")
+            pay = unhex(g[3])
+            members = [(g[3], ta), ((bytes([pay[0] ^ 1, pay[1] ^ 1]) + pay[2:]).hex(), tb)]
+        for payhex, tok in members:
+            kv = fields(tok)
+            if kv.get("fc") != "1" or kv.get("err") != "0" or kv.get("up") != "-":
+                continue
+            payload, reply = unhex(payhex), unhex(kv.get("n", "-"))
+            if reply[:2] != payload[:2]:
+                return "op %d: the reply served from the cache carries ID 0x%s, the query had 0x%s" % (i, reply[:2].hex(), payload[:2].hex())
+            if kv.get("al") == "dot":
+                return "KNOWN:dotted-label: op %d: cached answer of another wire name with the same dotted text" % i
+            if kv.get("al") == "x":
+                return ("op %d: the reply served from the cache is the answer that was fetched for ANOTHER question "
+                        "(the client gets another query's answer and the upstream is never asked)" % i)
+    return None
+
+
 SPEC = dict(
     lean_module="NV.Props.C01",
     areas=[dict(name="sock", n_quick=3000, n_thorough=40000, shards_thorough=8, oracle=oracle_c01,
@@ -67,7 +108,10 @@ SPEC = dict(
            dict(name="sockconc", n_quick=2400, n_thorough=32000, shards_thorough=4, oracle=oracle_conc,
                 nontrivial=lambda c, i: len(i) > 8),
            dict(name="e2e", n_quick=1500, n_thorough=24000, shards_thorough=8, oracle=oracle_e2e, timeout=900,
-                nontrivial=lambda c, i: len(i) > 8)],
+                nontrivial=lambda c, i: len(i) > 8),
+           # the cache-hit leg: a served entry is the answer to this very question
+           dict(name="cache", n_quick=600, n_thorough=8000, shards_thorough=8, oracle=oracle_cache_faithful, timeout=1500,
+                nontrivial=lambda c, i: "fc=1" in i)],
     level_text="Theorems over the handler model: exactly one write on every normal path of both handler closures (regenerated CFGs), "
                "SERVFAIL exactly on error/out-of-range size with the query's ID, upstream message passed byte for byte on TCP and as a "
                "prefix except the TC bit on UDP. The model is compared byte for byte with the real proxy over real sockets, "
